@@ -5,7 +5,9 @@
     (status)  no documented key covers its status code and there is no `default`;
     (media)   media types are documented for it and its Content-Type is missing, malformed, or covered by none;
     (headers) a documented header marked required is absent, or a documented header that is present does not
-              satisfy its schema when read through the string coercion inherent to header values;
+              satisfy its schema under ANY reading of its text as a value of one of the documented types (the string
+              coercion inherent to header values; the types are those of the schema — of the target of its `$ref` —,
+              "string" when none is given, and null when the schema is nullable);
     (body)    its Content-Type is JSON, a (non-empty) schema is documented for its status code and media type, and
               the body is not JSON or violates that schema.
   The documentation that applies to a status code is found in the OpenAPI order: the explicit code, then a range
@@ -14,9 +16,13 @@
   Independent of the model wherever the property text leaves room for it: range keys are matched arithmetically
   (least significant digit first) instead of by enumeration; media types are read by a parser without the quote
   bookkeeping of `_parseparam`; coverage is `(m = * ∨ m = m') ∧ (s = * ∨ s = s')`; lookup is one recursive pass.
-  Shared with the model on purpose: the data types, `digitsOf` (`str(status)`), the header coercion
-  (`coerceHeader`: the property reads header values "through string coercion"), `headerSchema` (headers are strings
-  unless typed), `isJsonMedia`, and the notion of an empty schema.
+  Shared with the model on purpose: the data types, `digitsOf` (`str(status)`), the per-type header coercion
+  (`coerceAs` / `readings`: the property reads header values "through string coercion"), `prepSchema` (headers are
+  strings unless typed), `isJsonMedia`, and the notion of an empty schema.
+
+  Formats: the format names of the JSON-Schema validation vocabulary (2020-12, section 7.3) are assertions for
+  response conformance in every OpenAPI version (`assertedFormats`, written from the standard, not from the
+  library's registration table); every other name (`int32`, `password`, vendor names) is an annotation.
 -/
 import SV.Model.C04
 
@@ -82,14 +88,14 @@ def devContentType (doc : Doc) (r : Resp) : Bool :=
 
 /-! ### headers -/
 
-def headerDeviates (V : Json → Json → Bool) (r : Resp) (h : HeaderDef) : Bool :=
+def headerDeviates (V : Json → Json → Bool) (fl : Flavour) (r : Resp) (h : HeaderDef) : Bool :=
   match lookupHeader (lower h.name) r.headers with
   | none => h.required
-  | some value => !(V (headerSchema h.schema) (coerceHeader value (headerSchema h.schema)))
+  | some value => !((readings fl h value).any (V (prepSchema h.schema)))
 
 def devHeaders (V : Json → Json → Bool) (doc : Doc) (r : Resp) : Bool :=
   match specLookup doc r.status with
-  | some d => d.headers.any (headerDeviates V r)
+  | some d => d.headers.any (headerDeviates V doc.flavour r)
   | none => false
 
 /-! ### body -/
@@ -115,6 +121,27 @@ def devBody (V : Json → Json → Bool) (doc : Doc) (r : Resp) : Bool :=
 
 def deviates (V : Json → Json → Bool) (doc : Doc) (r : Resp) : Bool :=
   devStatus doc r || devContentType doc r || devHeaders V doc r || devBody V doc r
+
+/-! ### formats -/
+
+/-- the defined formats of the JSON-Schema validation vocabulary (draft 2020-12, section 7.3: dates/times/duration,
+    e-mail addresses, hostnames, IP addresses, resource identifiers, uri-template, JSON pointers, regex) -/
+def assertedFormats : List String :=
+  ["date-time", "date", "time", "duration",
+   "email", "idn-email",
+   "hostname", "idn-hostname",
+   "ipv4", "ipv6",
+   "uri", "uri-reference", "iri", "iri-reference", "uuid",
+   "uri-template",
+   "json-pointer", "relative-json-pointer",
+   "regex"]
+
+/-- a documented `format` is enforced iff it is one of the defined formats -/
+def specFmt (F : String → Json → Bool) (f : String) (v : Json) : Bool := !(assertedFormats.contains f) || F f v
+
+/-- deviation when validity `W` is parametrised by the format predicate: the specification hands it `specFmt F` -/
+def deviatesF (W : (String → Json → Bool) → Json → Json → Bool) (F : String → Json → Bool) (doc : Doc) (r : Resp) : Bool :=
+  deviates (W (specFmt F)) doc r
 
 /-! ### well-formedness of documents and responses (hypotheses of the theorems, computed by the driver) -/
 
@@ -160,5 +187,28 @@ def singleMedia (doc : Doc) : Bool := doc.responses.all fun kd => kd.2.content.l
 /-- hypothesis of the `.asFound` header theorem: no required header is documented through a `$ref` -/
 def noRequiredRefHeader (doc : Doc) : Bool :=
   doc.responses.all fun kd => kd.2.headers.all fun h => !(h.isRef && h.required)
+
+/-- every keyword of the header schema survives `supported_jsonschema_keywords` -/
+def keywordsSupported (fl : Flavour) (s : Json) : Bool :=
+  match s with
+  | .obj kvs => kvs.all fun kv => keepKey fl kv.1
+  | _ => true
+
+/-- the header schema is an inline object, not nullable, and its `type` is absent or a single name -/
+def plainType (fl : Flavour) (h : HeaderDef) : Bool :=
+  h.target.isNone &&
+  (match h.schema with
+   | .obj kvs =>
+     (Json.lookup "$ref" kvs).isNone && !(isNullableTrue fl kvs) &&
+     (match Json.lookup "type" kvs with
+      | none => true
+      | some (.str _) => true
+      | some _ => false)
+   | _ => false)
+
+/-- hypothesis of the `.asFound` header theorem: every documented header schema uses supported keywords only and
+    has a plain type -/
+def plainHeaders (doc : Doc) : Bool :=
+  doc.responses.all fun kd => kd.2.headers.all fun h => keywordsSupported doc.flavour h.schema && plainType doc.flavour h
 
 end SV.Spec.C04
